@@ -747,7 +747,7 @@ def pipeline(ctx, term, depth=0):
     return t, list(reversed(rev)), sink
 
 
-def first_match(ctx, term):
+def first_match(ctx, term, guard=None):
     """`term` = payload taken from the first element a pipeline yields (`SRC.find_map(f)` / `SRC.find(p).map(g)` / with the
     Option::map inlined: `SRC.find(p).as:Some.0.<proj>`): returns (rendered collection, filter conjuncts, rendered value as
     a function of the matching element $x) or None"""
@@ -763,6 +763,29 @@ def first_match(ctx, term):
         t = t[1]
     if t[0] != "call" or mir._strip_generics(t[1]).rsplit("::", 1)[-1] not in ("find", "find_map", "next"):
         return None
+    if mir._strip_generics(t[1]).rsplit("::", 1)[-1] == "next":
+        # loop form: `for x in SRC { if cond(x) { return Ok(val(x)) } } Err(..)` - the condition is the guard of the returning case
+        if guard is None or len(guard) != 1:
+            return None
+        elem = mir.mk_proj(t, ("as:Some", "0"))
+
+        def fx(q):
+            if q == elem:
+                return _X
+            if q[0] == "proj" and q[1] == t and q[2][:2] == ("as:Some", "0"):
+                return mir.mk_proj(_X, q[2][2:])
+            return None
+        filt = []
+        for a in next(iter(guard)):
+            if a[0] == "is" and a[1] == t:
+                if a[2] != frozenset(["Some"]):
+                    return None
+                continue
+            filt.append(canon_atom((a[0], mir.subst(a[1], fx)) + tuple(a[2:])))
+        val = "$x"
+        for e in rest:
+            val = val + "." + e
+        return render(strip_iter(t[2][0])), sorted(filt), val
     src, stages, sink = pipeline(ctx, t)
     filt = sorted(x for st in stages if st[0] == "filter" for x in st[1])
     maps = [st[1] for st in stages if st[0] == "map"]
